@@ -75,9 +75,17 @@ def _matches(entry, sig):
     return all(sig.get(k) == v for k, v in m.items())
 
 
-def finish(pid, tier, seed, level, part, t0, rule, bounds, assumptions, exhaustive=True, extra=None):
+def finish(pid, tier, seed, level, part, t0, rule, bounds, assumptions, exhaustive=True, extra=None, conform=True):
     """write evidence, print KNOWN-FINDING / VIOLATION lines, return exit code"""
     EVIDENCE_DIR.mkdir(exist_ok=True)
+    if conform and os.environ.get("VERIF_SKIP_CONFORMANCE") != "1":
+        # binding of the environment model to real asyncio (DESIGN.md §2.6), counted in traces_validated_against_impl
+        from . import conformance
+        conformance.preflight(part)
+        assumptions = list(assumptions) + [
+            "SimLoop/SimNet validated on this run against the real selector loop: %d differential transcripts / "
+            "profiles agreed, %d skipped" % (part.counters.get("conformance_traces", 0),
+                                            part.counters.get("conformance_skipped", 0))]
     if part.infra:
         for m in part.infra[:5]:
             print(f"INFRASTRUCTURE-ERROR property={pid} {m}")
@@ -99,6 +107,12 @@ def finish(pid, tier, seed, level, part, t0, rule, bounds, assumptions, exhausti
     for hid, (e, v) in known_hit.items():
         print(f"KNOWN-FINDING: property={pid} {e['id']} {e['what']}")
     rc = 0
+    conf_infra = getattr(part, "conf_infra", [])
+    if conf_infra and not fresh:
+        # the environment model disagrees with real asyncio and nothing else was found: not a verdict on aioftp
+        for m in conf_infra[:5]:
+            print(f"INFRASTRUCTURE-ERROR property={pid} {m}")
+        return 2
     replay_paths = []
     if fresh:
         REPLAY_DIR.mkdir(exist_ok=True)
